@@ -247,11 +247,20 @@ func (fx *FnExec) enterLoop(fr *frame, li *loopInfo, lc *LoopContract, st *State
 		}
 	}
 	// havoc what the loop may change
+	var modAllocs []*ssa.Alloc
 	for a := range li.modAlloc {
-		if _, live := st.locals[a]; live || true {
-			t := a.Type().(*types.Pointer).Elem()
-			st.locals[a] = fx.freshVal(t, "loop."+a.Comment)
+		modAllocs = append(modAllocs, a)
+	}
+	// (in source order: the generated query must not depend on map iteration order)
+	sort.Slice(modAllocs, func(i, j int) bool {
+		if modAllocs[i].Pos() != modAllocs[j].Pos() {
+			return modAllocs[i].Pos() < modAllocs[j].Pos()
 		}
+		return modAllocs[i].Name() < modAllocs[j].Name()
+	})
+	for _, a := range modAllocs {
+		t := a.Type().(*types.Pointer).Elem()
+		st.locals[a] = fx.freshVal(t, "loop."+a.Comment)
 	}
 	// call-trace ghosts of callees called in the loop: unknown after any number of iterations,
 	// except that "called" and the count only grow
@@ -544,7 +553,14 @@ func (fx *FnExec) applyContract(fr *frame, st *State, fc *FuncContract, callee *
 		// an interface-typed argument whose dynamic type is known here to be a pointer to a modelled object (a
 		// bytes.Buffer handed over as io.Writer, ...): a callee that is not pure may call methods on it, and its
 		// contract - written against the interface - cannot name the object's fields.  The object is forgotten.
-		forget := func(v Val) {
+		forget := func(v Val, static types.Type) {
+			// only for parameters of an interface type WITH methods (io.Writer, hash.Hash, ...): through `any` a callee
+			// can reach the object only by a type assertion or reflection, which its contract has to spell out
+			if static != nil {
+				if it, isI := under(static).(*types.Interface); !isI || it.NumMethods() == 0 {
+					return
+				}
+			}
 			iv, ok := v.(IfaceV)
 			if !ok || iv.Tag == nil || iv.Tag.Op != "bv" || !iv.Tag.Val.IsInt64() {
 				return
@@ -561,10 +577,14 @@ func (fx *FnExec) applyContract(fr *frame, st *State, fc *FuncContract, callee *
 			}
 		}
 		if recv != nil {
-			forget(recv)
+			forget(recv, nil)
 		}
-		for _, a := range args {
-			forget(a)
+		for i, a := range args {
+			var pt types.Type
+			if sig != nil && i < sig.Params().Len() {
+				pt = sig.Params().At(i).Type()
+			}
+			forget(a, pt)
 		}
 	}
 	var res Val
@@ -979,11 +999,16 @@ func (eng *Engine) VerifyFunc(fn *ssa.Function, opts ExecOpts) (rep *FuncReport)
 	// ghost globals
 	{
 		env0 := &CEnv{fx: fx, fr: fr, st: st, vars: map[string]CVal{}}
-		for name, gt := range eng.ghostTypes {
+		var gnames0 []string
+		for name := range eng.ghostTypes {
+			gnames0 = append(gnames0, name)
+		}
+		sort.Strings(gnames0)
+		for _, name := range gnames0 {
 			if strings.Contains(name, ".$") {
 				continue
 			}
-			s, _ := env0.sortOf(gt)
+			s, _ := env0.sortOf(eng.ghostTypes[name])
 			st.ghost[name] = c.Const("ghost0."+name, s)
 		}
 	}
